@@ -126,3 +126,20 @@ LI_EST = dict(params=dict(self='obj:LocalInference', measurements='obj:', total=
                      dict(func='.mirror_descent', arg=1, kw='total', name='solver-gets-the-callers-total', spec='same(__arg, total__old)')],
               ensures={'the-model-is-returned': 'same(result, self.model)', 'one-solver-run': 'ghost("n_site_solver-gets-the-callers-total") == 1'})
 LI_ITEMS = [('src/mbi/local_inference.py', 'LocalInference.mirror_descent', LI_MD), ('src/mbi/local_inference.py', 'LocalInference.estimate', LI_EST)]
+
+
+# RegionGraph.project / FactorGraph.project, the in-clique path (what LocalInference hands its caller, C18): the answer is the stored
+# table of a clique that CONTAINS the requested attributes, projected on exactly the requested tuple (list -> tuple)
+_REQ = 'seq_equal(__arg, attrs__old) or same(__arg, tuple(attrs__old))'
+RG_PROJECT = dict(params=dict(self='obj:RegionGraph', attrs='seq:obj', maxiter='obj:', alpha='obj:'), requires=[], sequences=True,
+                  pure={'set': 'obj:set', 'type': 'obj', 'CliqueVector.from_data': 'obj', 'estimate_kikuchi_marginal': 'obj', 'Factor.uniform': 'obj', 'any': 'bool',
+                        'list': 'obj', 'len': 'int', '.project': 'obj', 'sum': 'obj'},
+                  sites=[dict(func='if', contains='return self.marginals[cl].project(attrs)', name='answer-only-from-a-clique-that-contains-the-request', spec='set(attrs) <= set(cl)'),
+                         dict(func='.project', arg=0, name='projected-on-the-requested-tuple', spec=_REQ)],
+                  ensures={})
+RG_PROJECT_ITEMS = [('src/mbi/region_graph.py', 'RegionGraph.project', RG_PROJECT)]
+
+
+def project_hooks(c):
+    from .cvec import _SetOrderHooks
+    return SiteSpecHooks(c.get('sites', []), inner=_SetOrderHooks(real_dicts=(), vector_dicts=(), sites=()))
